@@ -73,6 +73,12 @@ pub struct Case {
     pub jobs: Vec<Job>,
     /// single job through the one-shot compress_to_vec
     pub oneshot: bool,
+    /// (reused compressor, non-empty) ONE source for all frames: it is installed once, wrapped in
+    /// Read::take, and every further frame only moves the limit (`source_mut().set_limit(n)`) before
+    /// compress() - the way an endless stream is cut into frames. Cut points as fractions of the
+    /// data of jobs[0]; the results are (slice, frame) pairs in stream order
+    #[serde(default)]
+    pub stream_cuts: Vec<u16>,
 }
 
 pub struct FragReader {
@@ -158,8 +164,12 @@ fn reuse_job_strategy(max_len: u32) -> impl Strategy<Value = Job> {
 pub fn case_strategy(tier: Tier) -> impl Strategy<Value = Case> {
     let max_len = if tier == Tier::Quick { 1 << 20 } else { 8 << 20 };
     prop_oneof![
-        3 => job_strategy(max_len).prop_map(|j| Case { jobs: vec![j], oneshot: true }),
-        5 => prop::collection::vec(reuse_job_strategy(max_len.min(600_000)), 1..=6).prop_map(|jobs| Case { jobs, oneshot: false }),
+        3 => job_strategy(max_len).prop_map(|j| Case { jobs: vec![j], oneshot: true, stream_cuts: vec![] }),
+        5 => prop::collection::vec(reuse_job_strategy(max_len.min(600_000)), 1..=6).prop_map(|jobs| Case { jobs, oneshot: false, stream_cuts: vec![] }),
+        1 => (job_strategy(max_len.min(600_000)), prop::collection::vec(any::<u16>(), 1..=4)).prop_map(|(j, mut cuts)| {
+            cuts.sort();
+            Case { jobs: vec![j], oneshot: false, stream_cuts: cuts }
+        }),
     ]
 }
 
@@ -175,6 +185,31 @@ pub fn compress_history(case: &Case) -> Vec<(Vec<u8>, Vec<u8>)> {
             _ => compress_to_vec(rd, level_of(j.level)),
         };
         out.push((data, frame));
+        return out;
+    }
+    if !case.stream_cuts.is_empty() {
+        let j = &case.jobs[0];
+        let data = j.data.render();
+        let mut bounds: Vec<usize> = case.stream_cuts.iter().map(|c| ((data.len() as u64 * *c as u64) >> 16) as usize).collect();
+        bounds.push(data.len());
+        let mut comp: FrameCompressor<std::io::Take<FragReader>, Sink, _> = FrameCompressor::new(level_of(j.level));
+        let mut from = 0usize;
+        for (k, &to) in bounds.iter().enumerate() {
+            let n = (to - from) as u64;
+            if k == 0 {
+                comp.set_source(FragReader { data: data.clone(), pos: 0, chunking: j.chunking.clone(), calls: 0, fail_at: None }.take(n));
+            } else {
+                comp.source_mut().unwrap().set_limit(n);
+            }
+            comp.set_drain(Sink::Mem(Vec::new()));
+            comp.compress();
+            let frame = match comp.take_drain() {
+                Some(Sink::Mem(v)) => v,
+                _ => vec![],
+            };
+            out.push((data[from..to].to_vec(), frame));
+            from = to;
+        }
         return out;
     }
     let mut comp: FrameCompressor<FragReader, Sink, _> = FrameCompressor::new(level_of(case.jobs[0].level));
@@ -281,7 +316,7 @@ pub fn check(case: &Case, ctx: &mut CaseCtx) -> CaseResult {
     let mut nontrivial = false;
     let mut parts: Vec<&[u8]> = vec![];
     for (i, (input, frame_bytes)) in results.iter().enumerate() {
-        let j = &case.jobs[i];
+        let j = &case.jobs[i.min(case.jobs.len() - 1)];
         let what = format!("frame #{i} of {} ({}, level {}, {:?})", results.len(), j.data.kind_name(), if j.level % 2 == 0 { "Uncompressed" } else { "Fastest" }, j.chunking);
         verify_frame(input, frame_bytes, &what)?;
         if let Ok(info) = frame::walk(frame_bytes, &WalkOpts::default()) {
@@ -297,6 +332,7 @@ pub fn check(case: &Case, ctx: &mut CaseCtx) -> CaseResult {
         parts.push(frame_bytes);
     }
     ctx.feat_if(case.oneshot, "enc:oneshot_api");
+    ctx.feat_if(!case.stream_cuts.is_empty(), "enc:one_source_cut_into_frames_by_take_limits");
     ctx.weight = results.len() as u64;
     ctx.nontrivial = nontrivial;
     ctx.set_hash_bytes(&parts);
